@@ -224,24 +224,30 @@ fn raw_random(ctx: &mut Ctx) {
     let mut rng = ctx.rng(0x51);
     for h in 0..histories {
         if !ctx.begin_case() { let _ = rng.next_u64(); continue; }
-        let mut hr = Rng::derive(ctx.seed, ctx.shard as u64, 0x5100_0000 + h as u64);
-        let long = hr.chance(1, 4);
-        let steps = 1 + hr.below(if long { 200 } else { 40 });
-        let max_len = *hr.pick(&[70usize, 130, 200, 520]);
-        let mut raw = RawVector::new();
-        let mut m: Vec<bool> = Vec::new();
-        let mut log: Vec<String> = Vec::new();
-        let mut kinds: Vec<u64> = Vec::new();
-        for _ in 0..steps {
-            let op = raw_random_op(&mut hr, &m, max_len);
-            log.push(format!("{:?}", op));
-            kinds.push(hash_str(&format!("{:?}", std::mem::discriminant(&op))));
-            let hist = || log.join("; ");
-            if !raw_apply(ctx, &mut raw, &mut m, &op, &hist) { break; }
-        }
-        ctx.case(hash64(&kinds), steps >= 2);
-        ctx.sample(|| format!("raw history ({} ops): {}", log.len(), log.iter().take(12).cloned().collect::<Vec<_>>().join("; ")));
+        let mut hr = ctx.rng(0x5100_0000 + h as u64);
+        raw_history(ctx, &mut hr);
     }
+}
+
+// One random history on a raw vector, every step monitored. Also the entry point of the coverage-guided leg (fuzz.rs),
+// where `hr` hands out the fuzzer's bytes.
+pub fn raw_history(ctx: &mut Ctx, hr: &mut Rng) {
+    let long = hr.chance(1, 4);
+    let steps = 1 + hr.below(if long { 200 } else { 40 });
+    let max_len = *hr.pick(&[70usize, 130, 200, 520]);
+    let mut raw = RawVector::new();
+    let mut m: Vec<bool> = Vec::new();
+    let mut log: Vec<String> = Vec::new();
+    let mut kinds: Vec<u64> = Vec::new();
+    for _ in 0..steps {
+        let op = raw_random_op(hr, &m, max_len);
+        log.push(format!("{:?}", op));
+        kinds.push(hash_str(&format!("{:?}", std::mem::discriminant(&op))));
+        let hist = || log.join("; ");
+        if !raw_apply(ctx, &mut raw, &mut m, &op, &hist) { break; }
+    }
+    ctx.case(hash64(&kinds), steps >= 2);
+    ctx.sample(|| format!("raw history ({} ops): {}", log.len(), log.iter().take(12).cloned().collect::<Vec<_>>().join("; ")));
 }
 
 fn raw_exhaustive(ctx: &mut Ctx) {
@@ -493,25 +499,30 @@ fn int_random(ctx: &mut Ctx) {
     for width in 1..=64usize {
         for h in 0..per_width {
             if !ctx.begin_case() { continue; }
-            let mut hr = Rng::derive(ctx.seed, ctx.shard as u64, 0x1470_0000 + (width as u64) * 100_000 + h as u64);
-            let long = hr.chance(1, 4);
-        let steps = 1 + hr.below(if long { 200 } else { 40 });
-            let max_len = *hr.pick(&[5usize, 17, 40, 130]);
-            let mut v = match guard(|| IntVector::new(width)) { Ok(Ok(x)) => x, other => { ctx.violation("int.new.refused", format!("IntVector::new({}) did not return a vector: {:?}", width, other.map(|r| r.map(|_| ())))); continue; } };
-            let mut m = IntModel { width, items: Vec::new() };
-            let mut log: Vec<String> = vec![format!("new({})", width)];
-            let mut kinds: Vec<u64> = vec![width as u64];
-            for _ in 0..steps {
-                let op = int_random_op(&mut hr, &m, max_len);
-                log.push(format!("{:?}", op));
-                kinds.push(hash_str(&format!("{:?}", std::mem::discriminant(&op))));
-                let hist = || log.join("; ");
-                if !int_apply(ctx, &mut v, &mut m, &op, &hist) { break; }
-            }
-            ctx.case(hash64(&kinds), steps >= 2);
-            ctx.sample(|| format!("int history ({} ops): {}", log.len(), log.iter().take(10).cloned().collect::<Vec<_>>().join("; ")));
+            let mut hr = ctx.rng(0x1470_0000 + (width as u64) * 100_000 + h as u64);
+            int_history(ctx, &mut hr, width);
         }
     }
+}
+
+// One random history on an integer vector of the given width (see raw_history).
+pub fn int_history(ctx: &mut Ctx, hr: &mut Rng, width: usize) {
+    let long = hr.chance(1, 4);
+    let steps = 1 + hr.below(if long { 200 } else { 40 });
+    let max_len = *hr.pick(&[5usize, 17, 40, 130]);
+    let mut v = match guard(|| IntVector::new(width)) { Ok(Ok(x)) => x, other => { ctx.violation("int.new.refused", format!("IntVector::new({}) did not return a vector: {:?}", width, other.map(|r| r.map(|_| ())))); return; } };
+    let mut m = IntModel { width, items: Vec::new() };
+    let mut log: Vec<String> = vec![format!("new({})", width)];
+    let mut kinds: Vec<u64> = vec![width as u64];
+    for _ in 0..steps {
+        let op = int_random_op(hr, &m, max_len);
+        log.push(format!("{:?}", op));
+        kinds.push(hash_str(&format!("{:?}", std::mem::discriminant(&op))));
+        let hist = || log.join("; ");
+        if !int_apply(ctx, &mut v, &mut m, &op, &hist) { break; }
+    }
+    ctx.case(hash64(&kinds), steps >= 2);
+    ctx.sample(|| format!("int history ({} ops): {}", log.len(), log.iter().take(10).cloned().collect::<Vec<_>>().join("; ")));
 }
 
 fn int_exhaustive(ctx: &mut Ctx) {
